@@ -63,3 +63,36 @@ Theorem C11_model_uses_code_tests :
   gl_reader_dec = (- READER)%Z /\ gl_last_reader_old = Z.lor READER WAITER.
 Proof. repeat split; reflexivity. Qed.
 Print Assumptions C11_model_uses_code_tests.
+
+(* Part 2: the bin mutexes.  Over the lock-extent table and call graph regenerated from the source
+   (Gen/GenLocks.v, Gen/GenAtomics.v; resolution by name and arity, an over-approximation): while a
+   thread holds a bin mutex it never acquires a second mutex, directly or through any function it
+   can reach - so the wait-for relation among mutex holders has no edges and no cycle - and the
+   only other waits it can perform are those of the tree-bin write lock (lock_root /
+   contended_lock), which Part 1 shows to terminate: the readers it waits for hold no mutex and
+   never block (C12). *)
+From Flurry Require Import Model.Locks Proofs.LocksProofs.
+From Coq Require Import String.
+Import ListNotations.
+Open Scope string_scope.
+
+Theorem C11_one_bin_lock_at_a_time : forall e, In e lock_extents ->
+  forall b, In b (ext_blocking e) -> snd b <> "lock".
+Proof. exact no_nested_mutex. Qed.
+Print Assumptions C11_one_bin_lock_at_a_time.
+
+Theorem C11_waits_under_bin_lock_are_tree_lock_waits : forall e, In e lock_extents ->
+  forall b, In b (ext_blocking e) -> In (fst b) ["lock_root"; "contended_lock"].
+Proof. exact waits_under_mutex. Qed.
+Print Assumptions C11_waits_under_bin_lock_are_tree_lock_waits.
+
+(* the table accounts for every `.lock()` in the sources, the calls it does not follow (clone on a
+   key or value) are what they are taken to be, and the graph does see the tree lock *)
+Theorem C11_lock_table_complete :
+  extents_cover_lock_sites = true /\ clones_are_of_keys_and_values = true /\
+  extents_reach_tree_lock = true /\ all_explicit_drops = true.
+Proof.
+  exact (conj extents_cover_lock_sites_true (conj clones_are_of_keys_and_values_true
+        (conj extents_reach_tree_lock_true all_explicit_drops_true))).
+Qed.
+Print Assumptions C11_lock_table_complete.
